@@ -44,6 +44,8 @@ class CallMixin:
                 return self.resolve_import(imps[name], p)
         if name == "logger":
             return VOpaque("logger")
+        if name in ("slice", "Iterable", "SupportsIndex", "Sequence", "Mapping", "bytes", "float", "complex"):
+            return VClass(name)
         if name in self.builtin_names:
             return VFunc("builtin", name, name)
         if name in ("ValueError", "TypeError", "KeyError", "IndexError", "RuntimeError", "AttributeError",
@@ -60,7 +62,7 @@ class CallMixin:
                      "sorted", "next", "iter", "print", "type", "abs", "super", "callable", "object", "setattr", "float",
                      # spec-only
                      "old", "forall", "exists", "implies", "fresh", "allocated", "at_loop", "iff", "typeis", "seq_eq",
-                     "count", "distinct_seq", "ite", "subseteq", "same_elems", "box", "nonnull", "unchanged", "Seq", "some", "IntSeq"}
+                     "count", "distinct_seq", "ite", "subseteq", "same_elems", "box", "nonnull", "unchanged", "Seq", "some", "IntSeq", "countp"}
 
     def _mod_consts(self, mod):
         c = self._consts_cache.get(mod)
